@@ -73,7 +73,8 @@ def bounded(check):
     out = dict(name="the spec's value is the one of the latest implementation registered for the active context; overridden ones are not executed",
                level="bounded",
                bound="every sequence of <= %d implementations (HostContext / HostArchiveContext / both; value / skip), evaluated after every "
-                     "registration for both contexts" % n,
+                     "registration for both contexts; every sequence of <= 4 registrations mixing implementations bound to a context with "
+                     "implementations bound to another spec whose own contexts grow over time" % n,
                result=info, violation=(p.returncode == 1), error=(p.returncode not in (0, 1)))
     if p.returncode == 1:
         os.makedirs(os.path.join(here, "replays"), exist_ok=True)
